@@ -27,6 +27,7 @@ def run(ctx):
             # the `_unchecked` forms of the same helpers are part of the documented surface: each is its `_internal` function
             ctx.guard("C20", "twins", lambda: features.twins(ctx, prog, scope=r"block_size::|score_cap_on_block_hash_comparison|raw_score_by_edit_distance|is_near|compare_sizes|is_far", floor=4))
         ctx.guard("C20", "const values", lambda: data.const_census(ctx, prog, data.CONST_SCOPES["C20"], floor=1))
+        ctx.guard("C20", "panic conditions", lambda: beliefs.live_census(ctx, prog, beliefs.SCOPES["C20"][0]))
         ctx.guard("C20", "summaries", lambda: summary.check(ctx, prog, 'block_size::|BlockSizeRelation|is_block_sizes_|compare_block_sizes|score_cap_on|raw_score_by', floor=10))
         ctx.guard("C20", "path summaries", lambda: summary.check_paths(ctx, prog, 'block_size::|BlockSizeRelation|is_block_sizes_|compare_block_sizes|score_cap_on|raw_score_by', floor=6))
         if c in ("dbg", "unsafe_dbg", "strict_dbg"):
